@@ -7,8 +7,9 @@ import subprocess
 import tempfile
 
 from .core import exc_class, hx
-from .fstree import (CHAIN_FILE, CHAIN_NAME, collect_ids, count_nodes, enc_chain, enc_tree, gen_spelling, gen_tree, has_kind,
-                     impl_chain, on_disk, ref_chain, shrink_tree, shuffled_scandir, spelled_root, subdirs)
+from .fstree import (CHAIN_FILE, CHAIN_NAME, apply_ops, collect_ids, count_nodes, enc_chain, enc_tree, gen_reread, gen_spelling,
+                     gen_tree, has_kind, impl_chain, mutate_tree, on_disk, other_spelling, ref_chain, ref_ids, shrink_tree,
+                     shuffled_scandir, spelled_root, subdirs)
 
 ID = "C06"
 PROPS = "Props/C06.v"
@@ -37,6 +38,11 @@ RULE = ("random file-system trees (depth <= 5, <= 120 nodes) materialised in a t
         "spelled root path and the CLI) and N in {1000, 1500} (above the interpreter's recursion limit: open known "
         "finding tree-deeper-than-recursion-limit, demonstrated), more depths and fan-out at the bottom in the thorough "
         "tier; built, encoded, hashed and removed iteratively, the recursion limit is never raised around the library; "
+        "RE-READ (30 % of the cases): after the reads above the tree is modified in place - files rewritten with other bytes "
+        "of the same length and atime/mtime restored, exec bits flipped, file <-> symlink, directory -> file, entries added "
+        "and removed, a directory renamed (same inode), two same-size files swapped - or removed and built again at the "
+        "same path with other bytes of the same sizes and the old times, then read again in the same process under two "
+        "spellings: the ids must be those of the tree as it is now (independent reference on the modified tree, and the model); "
         "non-trivial = >=1 sub-directory and >=1 non-regular or executable entry")
 TRUSTED = ["the OS layer (scandir, lstat, readlink, mkfifo, chmod) is exercised, not modelled: the model receives the tree as data",
            "lib/Sha1.v as an instance of the hash oracle"]
@@ -72,7 +78,10 @@ def gen(rng, tier):
                                    [b"docs".hex(), {"t": "D", "c": [[b"f".hex(), {"t": "R", "d": b"x".hex(), "m": 0o644}]]}]]}
             if b"lib".hex() not in [n for n, _ in t["c"]]:
                 t["c"].append([b"lib".hex(), lib])
-        cases.append({"tree": t, "seed": rng.randrange(10**6), "slashes": rng.choice([0, 0, 1, 3]), "spelling": gen_spelling(rng)})
+        cases.append({"tree": t, "seed": rng.randrange(10**6), "slashes": rng.choice([0, 0, 1, 3]), "spelling": gen_spelling(rng),
+                      "reread": gen_reread(rng, 0.3)})
+    cases[2:2] = [{"tree": small, "seed": 7, "slashes": 0, "spelling": "real", "reread": {"seed": s_, "n": 4, "mode": m_}}
+                  for s_, m_ in ((1, "edit"), (2, "edit"), (3, "rebuild"))]
     # deep chains: below the recursion limit (must pass) and above it (known finding)
     chains = [(200, 7, "linkup_rel", 1), (500, 0, "real", 0), (900, 250, "real", 0), (1000, 0, "real", 0), (1500, 400, "rootlink", 0)]
     if tier != "quick":
@@ -123,6 +132,8 @@ def classify(c):
     if c["slashes"]:
         ks.append("trailing-slash")
     ks.append("root=" + c.get("spelling", "real"))
+    if c.get("reread"):
+        ks.append("reread-after-" + c["reread"].get("mode", "edit"))
     if _is_chain(c):
         ks.append("chain-depth=" + ("<=500" if c["chain"] <= 500 else "501-%d" % DEPTH_FINDING_FLOOR if c["chain"] <= DEPTH_FINDING_FLOOR
                                     else ">%d" % DEPTH_FINDING_FLOOR))
@@ -201,6 +212,18 @@ def impl(c):
             res["cli"] = r.output.strip() if r.exit_code == 0 else "exit %d %s" % (r.exit_code, exc_class(r.exception) if r.exception else "")
         except Exception as e:
             res["cli"] = "error:" + exc_class(e)
+        if c.get("reread"):
+            # the tree is now modified IN PLACE (or removed and built again at the same path) and read again, in the same
+            # process: nothing may be carried over from the reads above
+            try:
+                t2, ops = mutate_tree(c["tree"], c["reread"])
+                apply_ops(ops, root, t2)
+                r1 = {hx(k): v for k, v in collect_ids(Directory.from_disk(path=spelled + b"/" * c["slashes"])).items()}
+                r2 = {hx(k): v for k, v in collect_ids(Directory.from_disk(path=other_spelling(spelled, root))).items()}
+                res["reread_ids"] = r1
+                res["reread_equal"] = r1 == r2
+            except Exception as e:
+                res["reread_error"] = exc_class(e) + ":" + str(e)[:80]
     return res
 
 
@@ -212,8 +235,12 @@ def requests(c):
         return ["rootid all - id " + t, "rootid all - rev " + t, "spec " + t, "pruned empty " + t, "rootid empty - id " + t]
     t = enc_tree(c["tree"])
     # the last request goes through the literal stack/queue model (from_disk_iter) with the listing reversed
-    return ["ids all - id " + t, "ids all - rev " + t, "spec " + t, "pruned empty " + t, "ids empty - id " + t,
-            "iterids empty - rev " + t]
+    rq = ["ids all - id " + t, "ids all - rev " + t, "spec " + t, "pruned empty " + t, "ids empty - id " + t,
+          "iterids empty - rev " + t]
+    if c.get("reread"):
+        t2 = enc_tree(mutate_tree(c["tree"], c["reread"])[0])
+        rq += ["ids all - id " + t2, "spec " + t2]
+    return rq
 
 
 def model(c, resp):
@@ -237,6 +264,9 @@ def model(c, resp):
     e = ids(resp[4])
     res["root_ignore_empty"] = e.get(".") if isinstance(e, dict) else str(e)
     res["ids_empty"], res["iterids_empty"] = e, ids(resp[5])
+    if c.get("reread"):
+        res["reread_ids"] = ids(resp[6])
+        res["reread_git_node_id"] = resp[7].split(" ")[2]
     return res
 
 
@@ -296,6 +326,19 @@ def oracle(c, ires, mres):
         return "swhid() does not carry the root id"
     if ires["cli"] != "swh:1:dir:" + root:
         return "the command line prints %r, the library computes swh:1:dir:%s" % (ires["cli"], root)
+    if c.get("reread"):
+        if "reread_error" in ires:
+            return "reading the tree again after it was modified in place raised " + ires["reread_error"]
+        want = {hx(k): v for k, v in ref_ids(mutate_tree(c["tree"], c["reread"])[0]).items()}
+        if ires["reread_ids"] != want:
+            a = ires["reread_ids"]
+            diff = sorted(k for k in set(a) | set(want) if a.get(k) != want.get(k))[:4]
+            return ("a second read, after the tree was modified in place (%s), does not give the ids of the tree as it is now: "
+                    "differs at paths %s" % (c["reread"].get("mode", "edit"), diff))
+        if ires["reread_ids"]["."] != mres["reread_git_node_id"]:
+            return "the root id of the second read is not the git tree id of the modified tree"
+        if not ires["reread_equal"]:
+            return "two spellings of the same root give different ids on the second read"
     return None
 
 
@@ -328,6 +371,8 @@ def compare(c, ires, mres):
         a, b = mres["ids"], ires["ids"]
         diff = [k for k in set(a) | set(b) if a.get(k) != b.get(k)]
         return "node ids differ between model and implementation at paths %s" % sorted(diff)[:4]
+    if c.get("reread") and mres["reread_ids"] != ires.get("reread_ids"):
+        return "node ids of the re-read (modified) tree differ between model and implementation"
     return None
 
 
@@ -343,6 +388,8 @@ def shrink(c):
         yield dict(c, slashes=0)
     if c.get("spelling", "real") != "real":
         yield dict(c, spelling="real")
+    if c.get("reread") and c["reread"].get("n", 1) > 1:
+        yield dict(c, reread=dict(c["reread"], n=c["reread"]["n"] - 1))
 
 
 def pre_checks(ctx):
@@ -510,6 +557,6 @@ Definition export_case (r : fd_result mtree) : list N := match r with
 def coq_cases(cases):
     """from_disk (both listing orders, filters all / empty), from_disk_iter, node_id, git_node_id, wf_fs, prune_empty and mt_id
     with H := Sha1.sha1 evaluated by vm_compute inside Coq vs the extracted driver, on small trees (extraction cross-check)"""
-    small = [c for c in cases if not c.get("chain") and count_nodes(c["tree"]) <= 10 and coq_tree_bytes(c["tree"]) <= 400][:12]
+    small = [c for c in cases if not c.get("chain") and not c.get("reread") and count_nodes(c["tree"]) <= 10 and coq_tree_bytes(c["tree"]) <= 400][:12]
     cases[:] = small
     return coq_from_disk(ID, [(c, requests(c)) for c in small])
